@@ -203,7 +203,7 @@ func genC14Once(kind string, r *core.Rng) *c14Case {
 					d.GradR = r.Chance(0.4)
 				}
 			}
-			if kind == "dashed" {
+			if kind == "dashed" || kind == "dashed-short" {
 				// dashed strokes of widths other than 1 (dash lengths are multiples of the width)
 				d.Stroke = col()
 				d.Width = r.Range(0.4, 2.5)
@@ -224,7 +224,17 @@ func genC14Once(kind string, r *core.Rng) *c14Case {
 				if len(d.Dash)%2 == 1 {
 					per *= 2
 				}
-				if L := pathFrom(d.Data).Length(); per > L/4 && L > 0 {
+				if L := pathFrom(d.Data).Length(); kind == "dashed-short" && L > 0 {
+					// a path of the order of one dash or gap: where it starts in the pattern decides whether
+					// it is stroked whole, in part or not at all
+					f := L * r.Range(0.3, 3) / per
+					for i := range d.Dash {
+						d.Dash[i] *= f
+					}
+					if r.Chance(0.3) {
+						d.Dash = append([]float64{0}, d.Dash...) // a leading zero: the pattern starts with a gap
+					}
+				} else if per > L/4 && L > 0 {
 					f := L / 4 / per
 					for i := range d.Dash {
 						d.Dash[i] *= f
@@ -807,6 +817,7 @@ func init() {
 			{Name: "view", Quick: 300, Thorough: 25000, Gen: genC14("view")},
 			{Name: "rule", Quick: 300, Thorough: 15000, Gen: genC14("rule")},
 			{Name: "lowres", Quick: 300, Thorough: 8000, Gen: genC14("lowres")},
+			{Name: "dashed-short", Quick: 300, Thorough: 6000, Gen: genC14("dashed-short"), Note: "dashed strokes of paths about as long as one dash or gap of the pattern (Context.DrawPath decides for them whether the stroke is solid, dashed or absent)"},
 			{Name: "dashed", Quick: 300, Thorough: 8000, Gen: genC14("dashed"), Note: "dashed strokes of widths other than 1 (the canvas keeps dashes in units of the width; every rendering scales them)"},
 			{Name: "images", Quick: 200, Thorough: 4000, Gen: genC14("images"), Note: "a raster image below the shapes, mostly in non-linear colour spaces: rendering twice gives the same image and leaves the source image alone (the image's own pixels are not judged)"},
 			{Name: "gradient-stops", Quick: 300, Thorough: 8000, Gen: genC14("gradient-stops"), Note: "linear gradients of 2-4 stops whose first stop may lie after 0 and whose last before 1"},
